@@ -329,6 +329,68 @@ def eval_ws_chunk(ctx, results, name):
     return vlib.parse_nat_list(out, 'W1'), vlib.parse_nat_list(out, 'W2')
 
 
+# ---- root discovery: the model (Model/RootDiscovery.v) against config.FindBundleRootDirectories / GetPotentialRoots ----
+
+def tree_term(before):
+    """the snapshot as Model.RootDiscovery.rnode; a file carries the project.roots its text declares"""
+    root = {}
+    for d in before['dirs']:
+        n = root
+        for c in (d.split('/') if d else []):
+            n = n.setdefault(c, {})
+    for f, txt in before['files'].items():
+        n = root
+        comps = f.split('/')
+        for c in comps[:-1]:
+            n = n.setdefault(c, {})
+        n[comps[-1]] = parse_cfg_roots(txt) if comps[-1] in ('.regal.yaml', 'config.yaml') else []
+
+    def term(n):
+        if isinstance(n, list):
+            return 'RFile %s' % cstrs(n)
+        return 'RDir %s' % clist('(%s, %s)' % (cstr(k), term(v)) for k, v in sorted(n.items()))
+    return term(root)
+
+
+def disc_ok(r):
+    """a result the discovery model is asked about: reached by its real path, every observed root inside the tree"""
+    if r['ws'].get('via') or r.get('fbrd') is None:
+        return False
+    seen = list(r['roots'] or []) + [x for v in r['fbrd'].values() for x in v]
+    if any(x.startswith('^') for x in seen):
+        raise RuntimeError('unexpected root outside the workspace: %r' % (seen,))
+    return not any(x.startswith('!') for x in seen)
+
+
+def disc_term(r):
+    ws = r['ws']
+    return '{| dc_tree := %s; dc_args := %s; dc_fbrd := %s; dc_gpr := %s |}' % (
+        tree_term(r['before']),
+        clist(cstrs([c for c in arg_dir(ws, a).split('/') if c]) for a in ws['args']),
+        clist(cstrs(npath(x) for x in r['fbrd'][a]) for a in ws['args']),
+        cstrs(npath(x) for x in r['roots'] or []))
+
+
+def eval_disc(ctx, results, chunk=700):
+    """indices (into results) of the trees on which model and implementation disagree; marker-directory counts"""
+    idx = [i for i, r in enumerate(results) if disc_ok(r)]
+    bad, markers = [], []
+    for k in range(0, len(idx), chunk):
+        part = idx[k:k + chunk]
+        pool_begin()
+        v = ['Definition discs : list disc_case := ' + clist(disc_term(results[i]) for i in part) + '.',
+             'Definition D1 := Eval vm_compute in failing disc_agrees 0 discs.',
+             'Definition D2 := Eval vm_compute in map (fun c => marker_dirs (dc_tree c)) discs.',
+             'Print D1. Print D2.']
+        v = ['From Regal Require Import Check.C13Check.', 'Open Scope N_scope.'] + pool_defs() + v
+        rc, out = vlib.coq_eval(ctx, 'Cases_C13_disc_%d' % (k // chunk), '\n'.join(v))
+        if rc != 0:
+            raise RuntimeError('discovery case evaluation failed:\n' + out[-3000:])
+        bad += [part[x] for x in vlib.parse_nat_list(out, 'D1')]
+        markers += vlib.parse_nat_list(out, 'D2')
+    return idx, bad, markers
+
+
 # ---- the property, computed on the two snapshots alone (no model) --------------------------------
 
 def declared_roots(ws):
@@ -340,6 +402,8 @@ def declared_roots(ws):
         if d == '':
             roots.update(ws.get('cfg_roots') or [])
     roots.update(ws.get('manifests') or [])
+    if ws.get('extra'):      # configurations in sub-directories / .regal.yaml (round 3): the roots the invocation must know
+        roots = set(spec_gpr(ws))
     if not roots:
         roots.update(ws['args'])
     return roots
@@ -349,8 +413,139 @@ def contains(root, pth):
     return root == '' or pth == root or pth.startswith(root + '/')
 
 
+# ---- which directories are project roots, worked out from the workspace DESCRIPTION alone (round 3) -------------
+# Nothing here looks at the materialised tree or asks regal: the description says where .manifest files, .regal
+# directories (with the project.roots of their config.yaml, a rules directory) and .regal.yaml files are put.
+# README "Project Roots": a directory containing a .manifest file is a root; a directory containing a .regal
+# directory is a root; project.roots of the configuration declares roots.  Which configurations count for an
+# invocation: the closest .regal directory and the closest .regal.yaml at or above the argument (the project's
+# configuration; together with every .manifest below that project directory), and every .regal directory at or
+# below the argument; a .regal.yaml BELOW the argument is not a marker.
+
+SKIP_NAMES = ('.git', '.idea', 'node_modules')
+
+
+def pjoin(d, x):
+    import posixpath
+    r = posixpath.normpath(posixpath.join(d, x) if d else x)
+    return '' if r == '.' else r
+
+
+def parse_cfg_roots(txt):
+    """project.roots of a configuration text as the generators write it"""
+    roots, inside = [], False
+    for line in txt.splitlines():
+        if line.strip() == 'roots:':
+            inside = True
+        elif inside:
+            m = re.match(r'\s+- (.*)$', line)
+            if not m:
+                break
+            roots.append(m.group(1).strip())
+    return roots
+
+
+def root_decls(ws):
+    """(regal: dir -> project.roots, yaml: dir -> project.roots, dirs holding a .manifest FILE, dirs with .regal/rules)"""
+    regal, yaml, rules = {}, {}, set()
+    for d in ws.get('regal_dirs') or []:
+        regal.setdefault(d, [])
+        if d == '':
+            regal[d] = regal[d] + list(ws.get('cfg_roots') or [])
+    for pth, txt in (ws.get('extra') or {}).items():
+        if pth == '.regal/config.yaml' or pth.endswith('/.regal/config.yaml'):
+            d = pth[:-len('.regal/config.yaml')].rstrip('/')
+            regal[d] = regal.get(d, []) + parse_cfg_roots(txt)
+        elif pth == '.regal.yaml' or pth.endswith('/.regal.yaml'):
+            d = pth[:-len('.regal.yaml')].rstrip('/')
+            yaml[d] = parse_cfg_roots(txt)
+    described = [f['path'] for f in ws['files'] or []] + list(ws.get('others') or []) + list(ws.get('extra') or {}) + \
+        [e + '/' for e in ws.get('empty_dirs') or []]
+    for e in described:
+        i = ('/' + e).find('/.regal/rules/')
+        if i >= 0:
+            d = ('/' + e)[1:i] if i > 0 else ''
+            regal.setdefault(d, [])
+            rules.add(d)
+    return regal, yaml, set(ws.get('manifests') or []), rules
+
+
+def arg_dir(ws, a):
+    """GetPotentialRoots takes the directory of an argument that is a file"""
+    if any(f['path'] == a for f in ws['files'] or []) or a in (ws.get('others') or []):
+        return a.rsplit('/', 1)[0] if '/' in a else ''
+    return a
+
+
+def spec_fbrd(ws, a):
+    """the project roots an invocation on the directory a must know, per the description"""
+    regal, yaml, mans, rules = root_decls(ws)
+    found = set()
+
+    def project(d, roots, is_dir):
+        found.add(d)
+        for r in roots:
+            found.add(pjoin(d, r))
+        if is_dir and d in rules:
+            found.add(pjoin(d, '.regal/rules'))
+        for m in mans:      # the bundles of that project (the search for them leaves out .git, .idea, node_modules)
+            rel = m[len(d):].strip('/') if d else m
+            if contains(d, m) and not any(c in SKIP_NAMES for c in rel.split('/')):
+                found.add(m)
+    ups = [a]
+    while ups[-1] != '':
+        ups.append(ups[-1].rsplit('/', 1)[0] if '/' in ups[-1] else '')
+    for d in ups:
+        if d in regal:
+            project(d, regal[d], True)
+            break
+    for d in ups:
+        if d in yaml:
+            project(d, yaml[d], False)
+            break
+    for d in regal:
+        if contains(a, d):
+            project(d, regal[d], True)
+    for m in mans:
+        if contains(a, m):
+            found.add(m)
+    return found
+
+
+def spec_gpr(ws):
+    args = [arg_dir(ws, a) for a in ws['args']]
+    found = set()
+    for a in args:
+        found |= spec_fbrd(ws, a)
+    return found or set(args)
+
+
+def discovery_predicate(r):
+    """what config.FindBundleRootDirectories / config.GetPotentialRoots answered on the materialised workspace against
+    the roots the description declares"""
+    ws = r['ws']
+    if ws.get('via') or r.get('fbrd') is None:     # reached through a symbolic link: WalkDir does not follow its root
+        return None
+    for a in ws['args']:
+        got = r['fbrd'].get(a)
+        want = sorted(spec_fbrd(ws, arg_dir(ws, a)))
+        if got is not None and sorted(got) != want:
+            lost = [x or '.' for x in want if x not in got]
+            extra = [x or '.' for x in got if x not in want]
+            return 'FindBundleRootDirectories(%s): %s%s' % (a or '.', ('misses ' + ', '.join(lost) + ' ') if lost else '',
+                                                             ('has ' + ', '.join(extra) + ' which is not declared') if extra else '')
+    got, want = sorted(r['roots'] or []), sorted(spec_gpr(ws))
+    if got != want:
+        return 'GetPotentialRoots(%s) = %s, declared: %s' % (', '.join(x or '.' for x in ws['args']), [x or '.' for x in got], [x or '.' for x in want])
+    return None
+
+
 def spec_root(ws, pth):
-    cands = [r for r in declared_roots(ws) if contains(r, pth)]
+    """the deepest root enclosing pth, among the roots of the description"""
+    roots = set(declared_roots(ws))
+    if not ws.get('via'):
+        roots |= spec_gpr(ws)
+    cands = [r for r in roots if contains(r, pth)]
     return max(cands, key=len) if cands else None
 
 
@@ -424,6 +619,47 @@ def predicate(r):
     return bad
 
 
+def root_relations(ws):
+    """how the declared roots of a workspace stand to each other and to the arguments (evidence histogram)"""
+    regal, yaml, mans, rules = root_decls(ws)
+    roots = sorted(spec_gpr(ws))
+    out = set()
+    for a in roots:
+        for b in roots:
+            if a != b and contains(a, b):
+                ka = 'manifest' if a in mans else 'regal' if a in regal else 'yaml' if a in yaml else 'cfgroot'
+                kb = 'manifest' if b in mans else 'regal' if b in regal else 'yaml' if b in yaml else 'cfgroot'
+                out.add('%s-in-%s' % (kb, ka))
+            elif a != b and b.startswith(a) and not contains(a, b) and a != '':
+                out.add('prefix-siblings')
+    args = [arg_dir(ws, a) for a in ws['args']]
+    outer = [r for r in roots if not any(o != r and contains(o, r) for o in roots)]
+    for a in args:
+        for o in outer:
+            out.add('arg-at-outer-root' if a == o else 'arg-above-outer-root' if contains(a, o) else 'arg-below-outer-root' if contains(o, a) else 'arg-beside-root')
+    ups = set()
+    for a in args:
+        while True:
+            ups.add(a)
+            if a == '':
+                break
+            a = a.rsplit('/', 1)[0] if '/' in a else ''
+    out.add('config-at-or-above-arg' if any(d in regal or d in yaml for d in ups) else 'no-config-at-or-above-arg')
+    return out
+
+
+def root_discovery_evidence(disc_all, disc_idx, disc_bad, disc_markers, disc_hits):
+    h = {}
+    for r in disc_all:
+        if not r['ws'].get('via'):
+            for k in root_relations(r['ws']):
+                h[k] = h.get(k, 0) + 1
+    return {'trees_compared_with_model': len(disc_idx), 'model_mismatches': len(disc_bad), 'declared_vs_discovered_mismatches': disc_hits,
+            'trees_only_discovered_not_run': sum(1 for r in disc_all if r['kind'] == 'disc'),
+            'marker_directories_per_tree': {str(k): disc_markers.count(k) for k in sorted(set(disc_markers))},
+            'relations': dict(sorted(h.items()))}
+
+
 def bystanders(ws):
     """entries of the workspace other than its rego files and root declarations, by kind"""
     out = []
@@ -465,6 +701,12 @@ def run_ws(ctx, h, regal, replay_ws=None, tag=''):
     return [json.loads(l) for l in open(out)]
 
 
+def fails(x, kind):
+    if kind == 'root-discovery-differs':
+        return discovery_predicate(x) is not None
+    return any(k == kind for k, _ in predicate(x))
+
+
 def shrink(ctx, h, regal, r, kind):
     """greedy: drop files / declarations of the workspace while the same predicate still fails"""
     ws = json.loads(json.dumps(r['ws']))
@@ -476,14 +718,14 @@ def shrink(ctx, h, regal, r, kind):
         n += 1
         rs = run_ws(ctx, h, regal, cand, tag='_s%d' % n)
         # (the stored workspace is run several times: the order of the moves differs from run to run)
-        return next((x for x in rs if any(k == kind for k, _ in predicate(x))), None)
+        return next((x for x in rs if fails(x, kind)), None)
     changed = True
-    while changed and n < 14:
+    while changed and n < 16:
         changed = False
-        for key in ('files', 'others', 'empty_dirs', 'manifests', 'cfg_roots', 'symlinks'):
+        for key in ('files', 'others', 'empty_dirs', 'manifests', 'cfg_roots', 'symlinks', 'extra', 'regal_dirs'):
             for i in range(len(ws.get(key) or [])):
                 cand = json.loads(json.dumps(ws))
-                if key == 'symlinks':
+                if key in ('symlinks', 'extra'):
                     del cand[key][sorted(cand[key])[i]]
                 else:
                     del cand[key][i]
@@ -503,6 +745,7 @@ def sig_key(r, kind):
     return json.dumps({'files': [[f['path'], f['pkg']] for f in ws['files'] or []], 'others': ws.get('others') or [],
                        'empty_dirs': ws.get('empty_dirs') or [], 'symlinks': ws.get('symlinks') or {},
                        'regal_dirs': ws.get('regal_dirs') or [], 'cfg_roots': ws.get('cfg_roots') or [], 'manifests': ws.get('manifests') or [],
+                       **({'extra': ws['extra']} if ws.get('extra') else {}),
                        'args': ws['args'], 'ignore': ws.get('ignore') or '', 'policy': ws['policy']}, sort_keys=True)
 
 
@@ -511,9 +754,11 @@ def run(ctx):
     h = vlib.build_harness(ctx, 'c13')
     regal = vlib.build_regal(ctx)
     replay_ws = replay_unit = None
+    replay_disc = False
     if ctx.replay:
         case = json.load(open(ctx.replay)).get('case') or {}
         replay_ws = case.get('ws')
+        replay_disc = bool(case.get('disc'))
         if case.get('hist'):
             replay_unit = ('seq', case['hist'])
         elif case.get('tree'):
@@ -535,19 +780,26 @@ def run(ctx):
 
     def ws_part():
         if replay_unit is not None:
-            return [], [], []
+            return [], [], [], [], ([], [], [])
         t1 = time.time()
-        results = run_ws(ctx, h, regal, replay_ws)
+        allres = run_ws(ctx, h, regal, replay_ws)
         tm['workspace_runs'] = round(time.time() - t1, 1)
+        # kind "disc": trees that were only shown to the discovery functions (also: the replay of a discovery case)
+        results = [r for r in allres if r['kind'] == 'ws' and not replay_disc]
+        discs = [r for r in allres if r['kind'] == 'disc' or replay_disc]
         t1 = time.time()
-        w1, w2 = eval_ws(ctx, results)
+        with ThreadPoolExecutor(max_workers=2) as ex2:
+            fd = ex2.submit(eval_disc, ctx, results + discs)
+            w1, w2 = eval_ws(ctx, results)
+            dres = fd.result()
         tm['workspace_case_evaluation'] = round(time.time() - t1, 1)
-        return results, w1, w2
+        return results, w1, w2, discs, dres
     with ThreadPoolExecutor(max_workers=2) as ex:
         fu = ex.submit(unit_part)
         fw = ex.submit(ws_part)
         cands, seqs, fcmrs, cleans, ures = fu.result()
-        results, w1, leaves = fw.result()
+        results, w1, leaves, discs, (disc_idx, disc_bad, disc_markers) = fw.result()
+    disc_all = results + discs
 
     # ---- verdicts: first the property on the implementation's own outputs
     pred_hits, reported = {}, 0
@@ -564,6 +816,21 @@ def run(ctx):
                                  'what': 'regal fix --force: ' + kind + ' ' + hs[0][1]},
                            signature={'kind': kind, 'key': sig_key(small, kind)})
             reported += 1
+    # root discovery on the real functions against the roots the description declares (every workspace, run or not)
+    disc_hits, disc_reported = 0, 0
+    for r in sorted(disc_all, key=lambda r: (len(r['ws']['files'] or []) + len(r['ws'].get('extra') or {}) + len(r['ws'].get('manifests') or []))):
+        w = discovery_predicate(r)
+        if w:
+            disc_hits += 1
+            if disc_reported < 1:
+                small = r if ctx.replay else shrink(ctx, h, regal, r, 'root-discovery-differs')
+                w = discovery_predicate(small) or w
+                vlib.violation(ctx, {'kind': 'root-discovery-differs', 'detail': w, 'case': {'ws': small['ws'], 'disc': True},
+                                     'observed': {'GetPotentialRoots': small['roots'], 'FindBundleRootDirectories': small.get('fbrd')},
+                                     'tree': sorted(small['before']['files']),
+                                     'what': 'project roots of the workspace as declared (.manifest / .regal / config) vs. pkg/config: ' + w},
+                               signature={'kind': 'root-discovery-differs', 'key': sig_key(small, '')})
+                disc_reported += 1
     hist_hits = clean_hits = 0
     # (the small named shapes first: they make the most readable replays)
     for c in sorted(seqs, key=lambda c: (0 if (c.get('hist') or {}).get('shape', 'random') != 'random' else 1, len(c['ops']))):
@@ -613,6 +880,12 @@ def run(ctx):
             if key == 'U1':
                 c = {'in': b64(c['in']).decode('latin-1'), 'out': b64(c['out']).decode('latin-1')}
             vlib.violation(ctx, {'kind': 'correspondence', 'relation': name, 'case': c, 'n_mismatches': len(ures[key])}, no_input=True)
+    if disc_bad and not ctx.violations:
+        r = disc_all[disc_bad[0]]
+        vlib.violation(ctx, {'kind': 'correspondence', 'relation': 'Check.C13Check.disc_agrees (Model.RootDiscovery find_bundle_roots / get_potential_roots vs '
+                             'config.FindBundleRootDirectories / config.GetPotentialRoots)', 'case': {'ws': r['ws'], 'disc': True},
+                             'observed': {'GetPotentialRoots': r['roots'], 'FindBundleRootDirectories': r.get('fbrd')}, 'tree': sorted(r['before']['files']),
+                             'n_mismatches': len(disc_bad)}, no_input=True)
     if w1 and not ctx.violations:
         r = results[w1[0]]
         vlib.violation(ctx, {'kind': 'correspondence', 'relation': 'Check.C13Check.ws_agrees (fix_loop + finish_command vs the regal binary)',
@@ -629,7 +902,7 @@ def run(ctx):
     nontrivial = len({sig_key(r, '') + str(r['ws']['dry_run']) for r, lv in zip(results, leaves)
                       if r['before'] != r['after'] or r['exit'] != 0 or lv > 1})
     cov = proof_coverage(ctx, {
-        'evaluations': len(cands) + len(seqs) + len(fcmrs) + len(cleans) + len(results),
+        'evaluations': len(cands) + len(seqs) + len(fcmrs) + len(cleans) + len(results) + len(disc_idx),
         'distinct_nontrivial': nontrivial,
         'rule': 'workspaces (distinct files/config/arguments/policy) run through the real binary in which something happened: the tree changed, the '
                 'command failed, or more than one violation order was possible; unit cases are counted in evaluations only',
@@ -637,6 +910,7 @@ def run(ctx):
         'schedule_leaves_histogram': {str(k): leaves.count(k) for k in sorted(set(leaves))},
         'outcome_histogram': hist, 'predicate_hits': pred_hits,
         'timing_s': tm,
+        'root_discovery': root_discovery_evidence(disc_all, disc_idx, disc_bad, disc_markers, disc_hits),
         'unit_predicate_hits': {'fixer_history': hist_hits, 'dir_cleanup': clean_hits},
         'workspaces_with_bystanders': sum(1 for r in results if bystanders(r['ws'])),
         'workspace_bystander_kinds': bystander_hist(results),
@@ -647,7 +921,7 @@ def run(ctx):
                                                                          and e['path'] != '/R/keep.txt') or e['path'].endswith(('/sub', '/.cache')) for e in c['entries'])),
         'unit_cases': {'rename_candidate': len(cands), 'provider_handle_rename_sequences': len(seqs), 'closest_root': len(fcmrs), 'closest_root_in_spec_domain': ures['fcmr_in_domain'], 'dir_cleanup': len(cleans)},
         'mismatch': {'rename_candidate': len(ures['U1']), 'sequences': len(ures['U2']), 'closest_root': len(ures['U3']), 'closest_root_vs_spec': len(ures['U4']),
-                     'dir_cleanup': len(ures['U5']), 'workspaces': len(w1)},
+                     'dir_cleanup': len(ures['U5']), 'workspaces': len(w1), 'root_discovery': len(disc_bad)},
         'samples': [{'name': r['ws']['name'], 'cmd': r['cmd'], 'exit': r['exit'], 'before': sorted(r['before']['files']), 'after': sorted(r['after']['files'])}
                     for r in results[:3]],
         'exhaustive': False,
@@ -658,5 +932,7 @@ def run(ctx):
         'the linter is an oracle: package path per content and the content after non-moving fixes; the directory-package-mismatch rule itself '
         '(last n directory components vs package path) is modelled and validated through the binary',
         'file system: regular files and directories only; permissions, symlinks, concurrent modification are outside the model',
-        'config.GetPotentialRoots is taken as observed (called in-process on the same workspace); the snapshot predicate uses the declared roots instead',
+        'root discovery: the fix_loop model takes config.GetPotentialRoots as observed; the discovery itself is modelled separately (Model/RootDiscovery.v, '
+        'YAML parsing an oracle, nothing above the workspace directory holds a regal config) and compared on every workspace; the snapshot predicate uses '
+        'the roots worked out from the workspace description',
     ])
